@@ -259,7 +259,13 @@ func RuleW26(r *Report, p *Program) {
 	w.LoopFuel = 2
 	w.ForceBool = true
 	up := p.SSAPkg("uhppote")
-	w.Inline = func(f *ssa.Function, d int) bool { return f.Pkg == up }
+	w.Inline = func(f *ssa.Function, d int) bool {
+		if pk := pkgOf(f); pk != nil && (pk.Pkg.Path() == "slices" || pk.Pkg.Path() == "cmp") {
+			return true // small pure generic helpers of the standard library (ContainsFunc, IndexFunc, ...)
+		}
+		return pkgOf(f) == up
+	}
+	w.MaxDepth = 6
 	paths := w.Walk(pred, []*Term{{Op: "param", Name: "card", Typ: pred.Params[0].Type()}, {Op: "param", Name: "formats", Typ: pred.Params[1].Type()}}, nil)
 	bad, badF := "", ""
 	nW26, nEmpty := 0, 0
